@@ -339,6 +339,11 @@ func c52AddP(v *big.Int) ([]byte, bool) {
 
 // c52G1Point draws a point of E(F_p) (every such point is in G1: the cofactor is 1).
 func c52G1Point(rt *rapid.T) rc.G1Pt {
+	if c52Uni(rt, "ptBoundary", 4) == 0 {
+		if pts := c52BoundaryG1(rt); len(pts) > 0 {
+			return pts[c52Uni(rt, "ptWhich", len(pts))]
+		}
+	}
 	if c52Uni(rt, "ptMode", 4) == 0 {
 		k, _ := c52Scalar(rt, "ptk")
 		return rc.G1Gen().Mul(c52ModN(k))
@@ -484,6 +489,12 @@ func (e *c52Env) caseG1Encoding(rt *rapid.T) {
 // c52G2Point draws a point of the twist: a multiple of the generator, or any point of E'(F_p^2)
 // found by solving the curve equation (almost never in the order-n subgroup).
 func (e *c52Env) c52G2Point(rt *rapid.T) (rc.G2Pt, string) {
+	if c52Uni(rt, "ptBoundary", 4) == 0 {
+		if pts := c52BoundaryG2(rt); len(pts) > 0 {
+			pt := pts[c52Uni(rt, "ptWhich", len(pts))]
+			return pt, "boundary-coordinate," + c52CoordClass(pt.X.Re, pt.X.Im, pt.Y.Re, pt.Y.Im)
+		}
+	}
 	if c52Uni(rt, "ptMode", 3) == 0 {
 		k, _ := c52Scalar(rt, "ptk")
 		return e.q.Mul(c52ModN(k)), "subgroup"
@@ -754,6 +765,193 @@ func (e *c52Env) caseGT(rt *rapid.T) {
 	e.c.Case(nt, "gt|"+ac+"|"+bc, "gt:group-law", "scalar:"+ac, "scalar:"+bc)
 }
 
+// ---------------------------------------------------------------- on-curve points with boundary coordinates
+
+// c52Boundary: field elements at the edges of the canonical range [0, p): just below p,
+// around the group order n (p - n is only about 2^128), around 2^255 and 2^128, and small.
+var c52Boundary = func() []*big.Int {
+	var out []*big.Int
+	seen := map[string]bool{}
+	add := func(v *big.Int) {
+		if v.Sign() < 0 || v.Cmp(rc.BNP) >= 0 || seen[v.String()] {
+			return
+		}
+		seen[v.String()] = true
+		out = append(out, new(big.Int).Set(v))
+	}
+	for k := int64(1); k <= 8; k++ {
+		add(new(big.Int).Sub(rc.BNP, big.NewInt(k)))
+	}
+	for k := int64(-2); k <= 2; k++ {
+		add(new(big.Int).Add(rc.BNN, big.NewInt(k)))
+		add(new(big.Int).Add(new(big.Int).Lsh(big.NewInt(1), 255), big.NewInt(k)))
+		add(new(big.Int).Add(new(big.Int).Lsh(big.NewInt(1), 128), big.NewInt(k)))
+		add(new(big.Int).Add(new(big.Int).Sub(rc.BNP, rc.BNN), big.NewInt(k)))
+		add(new(big.Int).Add(new(big.Int).Rsh(rc.BNP, 1), big.NewInt(k)))
+		add(new(big.Int).Add(new(big.Int).Rsh(new(big.Int).Add(rc.BNP, rc.BNN), 1), big.NewInt(k))) // middle of [n, p)
+	}
+	for k := int64(0); k <= 5; k++ {
+		add(big.NewInt(k))
+	}
+	return out
+}()
+
+// c52G1WithX / c52G1WithY: the points of E(F_p) with the given x resp. y coordinate.
+func c52G1WithX(x *big.Int) []rc.G1Pt {
+	rhs := new(big.Int).Exp(x, big.NewInt(3), rc.BNP)
+	rhs.Add(rhs, big.NewInt(3))
+	rhs.Mod(rhs, rc.BNP)
+	y, ok := rc.SqrtModP(rhs)
+	if !ok {
+		return nil
+	}
+	ny := new(big.Int).Sub(rc.BNP, y)
+	ny.Mod(ny, rc.BNP)
+	return []rc.G1Pt{{X: x, Y: y}, {X: x, Y: ny}}
+}
+
+func c52G1WithY(y *big.Int) []rc.G1Pt {
+	rhs := new(big.Int).Mul(y, y)
+	rhs.Sub(rhs, big.NewInt(3))
+	var out []rc.G1Pt
+	for _, x := range rc.CubeRootsModP(rhs) {
+		out = append(out, rc.G1Pt{X: x, Y: y})
+	}
+	return out
+}
+
+func c52G2WithX(x rc.Fp2) []rc.G2Pt {
+	y, ok := c52TwistSolve(x)
+	if !ok {
+		return nil
+	}
+	return []rc.G2Pt{{X: x, Y: y}, {X: x, Y: y.Neg()}}
+}
+
+func c52G2WithY(y rc.Fp2) []rc.G2Pt {
+	var out []rc.G2Pt
+	for _, x := range y.Mul(y).Sub(rc.TwistB()).CubeRoots() {
+		out = append(out, rc.G2Pt{X: x, Y: y})
+	}
+	return out
+}
+
+// c52BoundaryG1 / c52BoundaryG2 draw a point with a boundary coordinate (nil when the draw hits a non-residue).
+func c52BoundaryG1(rt *rapid.T) []rc.G1Pt {
+	v := c52Boundary[c52Uni(rt, "bval", len(c52Boundary))]
+	if c52Uni(rt, "bxy", 2) == 0 {
+		return c52G1WithX(v)
+	}
+	return c52G1WithY(v)
+}
+
+func c52BoundaryG2(rt *rapid.T) []rc.G2Pt {
+	v := c52Boundary[c52Uni(rt, "bval", len(c52Boundary))]
+	var w *big.Int
+	if c52Uni(rt, "bother", 2) == 0 {
+		w = c52Boundary[c52Uni(rt, "bval2", len(c52Boundary))]
+	} else {
+		w = new(big.Int).SetBytes(gen.RandBytes(rt, "bother.r", 32))
+		w.Mod(w, rc.BNP)
+	}
+	f := rc.NewFp2(v, w)
+	if c52Uni(rt, "bhalf", 2) == 0 {
+		f = rc.NewFp2(w, v)
+	}
+	if c52Uni(rt, "bxy", 2) == 0 {
+		return c52G2WithX(f)
+	}
+	return c52G2WithY(f)
+}
+
+// c52CheckCanonicalG1: the canonical encoding of an on-curve point must be accepted and re-marshal to
+// itself; the same encoding with + p on any coordinate that still fits must be refused.
+func (e *c52Env) c52CheckCanonicalG1(pt rc.G1Pt) error {
+	if !rc.G1OnCurve(pt.X, pt.Y) {
+		return fmt.Errorf("harness: constructed G1 point is not on the curve")
+	}
+	enc := pt.Encode()
+	got, ok := new(bn256.G1).ScalarBaseMult(big.NewInt(5)).Unmarshal(enc)
+	if !ok {
+		return fmt.Errorf("G1.Unmarshal rejected the canonical encoding %x of a point on the curve", enc)
+	}
+	if re := got.Marshal(); !bytes.Equal(re, enc) {
+		return fmt.Errorf("G1: %x re-marshals to %x", enc, re)
+	}
+	dbl := new(bn256.G1).ScalarMult(got, big.NewInt(2))
+	if want := pt.Add(pt).Encode(); !bytes.Equal(dbl.Marshal(), want) {
+		return fmt.Errorf("G1: decoded %x, [2]P = %x, want %x", enc, dbl.Marshal(), want)
+	}
+	for mask := 1; mask <= 3; mask++ {
+		nc := append([]byte{}, enc...)
+		fits := true
+		for i, v := range []*big.Int{pt.X, pt.Y} {
+			if mask&(1<<uint(i)) != 0 {
+				b, ok := c52AddP(v)
+				fits = fits && ok
+				if ok {
+					copy(nc[32*i:], b)
+				}
+			}
+		}
+		if !fits {
+			continue
+		}
+		if _, ok := new(bn256.G1).Unmarshal(nc); ok {
+			if e.f8Known {
+				e.c.Excluded()
+				continue
+			}
+			return fmt.Errorf("G1.Unmarshal accepted the non-canonical encoding %x (coordinate + p, mask %d)", nc, mask)
+		}
+	}
+	return nil
+}
+
+func (e *c52Env) c52CheckCanonicalG2(pt rc.G2Pt) error {
+	if !rc.G2OnCurve(pt.X, pt.Y) {
+		return fmt.Errorf("harness: constructed G2 point is not on the twist")
+	}
+	enc := pt.Encode()
+	got, ok := new(bn256.G2).ScalarBaseMult(big.NewInt(5)).Unmarshal(enc)
+	if !ok {
+		return fmt.Errorf("G2.Unmarshal rejected the canonical encoding %x of a point on the twist", enc)
+	}
+	if re := got.Marshal(); !bytes.Equal(re, enc) {
+		return fmt.Errorf("G2: %x re-marshals to %x", enc, re)
+	}
+	for i, v := range []*big.Int{pt.X.Im, pt.X.Re, pt.Y.Im, pt.Y.Re} {
+		b, ok := c52AddP(v)
+		if !ok {
+			continue
+		}
+		nc := append([]byte{}, enc...)
+		copy(nc[32*i:], b)
+		if _, ok := new(bn256.G2).Unmarshal(nc); ok {
+			if e.f8Known {
+				e.c.Excluded()
+				continue
+			}
+			return fmt.Errorf("G2.Unmarshal accepted the non-canonical encoding %x (coordinate %d + p)", nc, i)
+		}
+	}
+	return nil
+}
+
+// coordClass names where the coordinates of an encoding lie relative to n and p.
+func c52CoordClass(vals ...*big.Int) string {
+	hi := false
+	for _, v := range vals {
+		if v.Cmp(rc.BNN) >= 0 {
+			hi = true
+		}
+	}
+	if hi {
+		return "coord-in-[n,p)"
+	}
+	return "coords<n"
+}
+
 // ---------------------------------------------------------------- the check
 
 func TestC52(t *testing.T) {
@@ -942,5 +1140,55 @@ func TestC52(t *testing.T) {
 		}
 	}
 	c.Exhaustive("coordinate+p encodings of [k]G and [k]Q, k = 1..K (all that fit in 32 bytes)", mults)
+
+	// directed: on-curve points with a coordinate at the edges of [0, p) — every boundary value as x and as y
+	// (G1), every boundary value in either half of x and of y with a boundary or fixed other half (G2)
+	idx, made := 0, 0
+	for _, v := range c52Boundary {
+		idx++
+		if !ev.Mine(idx) {
+			continue
+		}
+		for _, pt := range append(c52G1WithX(v), c52G1WithY(v)...) {
+			if err := env.c52CheckCanonicalG1(pt); err != nil {
+				c.Violation(err.Error(), "")
+				t.Fatalf("VF-VIOLATION: property=C52 %v", err)
+			}
+			c.Case(true, "directed|g1-boundary|"+v.String()+"|"+c52CoordClass(pt.X, pt.Y), "directed:g1-boundary-coordinate", "g1:"+c52CoordClass(pt.X, pt.Y))
+			made++
+		}
+	}
+	others := c52Boundary
+	if !ev.Thorough() {
+		others = []*big.Int{c52Boundary[0], c52Boundary[1], new(big.Int).Set(rc.BNN), big.NewInt(0), big.NewInt(1), new(big.Int).Rsh(rc.BNP, 1)}
+	}
+	fixed := new(big.Int).Exp(big.NewInt(7), big.NewInt(97), rc.BNP)
+	for _, v := range c52Boundary {
+		for _, w := range append([]*big.Int{fixed}, others...) {
+			idx++
+			if !ev.Mine(idx) {
+				continue
+			}
+			var pts []rc.G2Pt
+			for _, f := range []rc.Fp2{rc.NewFp2(v, w), rc.NewFp2(w, v)} {
+				pts = append(pts, c52G2WithX(f)...)
+				pts = append(pts, c52G2WithY(f)...)
+			}
+			for _, pt := range pts {
+				if err := env.c52CheckCanonicalG2(pt); err != nil {
+					c.Violation(err.Error(), "")
+					t.Fatalf("VF-VIOLATION: property=C52 %v", err)
+				}
+				cc := c52CoordClass(pt.X.Re, pt.X.Im, pt.Y.Re, pt.Y.Im)
+				c.Case(true, "directed|g2-boundary|"+v.String()+"|"+w.String()+"|"+cc, "directed:g2-boundary-coordinate", "g2:"+cc)
+				made++
+			}
+		}
+	}
+	c.Exhaustive("on-curve points with boundary coordinates (x and y, each half for G2) x {canonical accepted, +p rejected}", idx)
+	if made < 20 {
+		c.Inconclusive(fmt.Sprintf("boundary-coordinate construction produced only %d points", made))
+		t.Fatal("harness: boundary construction")
+	}
 	_ = cnt
 }
